@@ -1,5 +1,5 @@
 """C22 — Runtime errors are never swallowed (ERRFLOW over rows + EVALGUARD)."""
-from .. import errflow, evalguard, rowflow
+from .. import errflow, evalguard, mustguard, rowflow
 from ..facts import op_local
 from ..mirutil import site_key
 
@@ -29,6 +29,7 @@ def run(ctx):
     ctx.rule("C22.1", "adaptors over Result<Row> streams keep Err items")
     ctx.rule("C22.2", "no query/storage Result is discarded in the executor / query API")
     ctx.rule("C22.3", "every row-level expression evaluation is preceded by the runtime-compatibility pre-pass")
+    ctx.rule("C22.4", "an operator that runs the pre-pass runs it on every path that can yield rows (only error exits bypass it)")
 
     sites, its = rowflow.adaptor_sites(F, EXEC)
     ctx.floor("C22.1", "row-stream iterator types", len(its), 8)
@@ -105,3 +106,15 @@ def run(ctx):
         ctx.oblige(g, "C22.3", "%s:%s:unguarded-evaluation" % (b.id, site_key(c)),
                    "a user expression is evaluated without the runtime-compatibility pre-pass: a runtime type error in it becomes null "
                    "instead of failing the query", c.loc(), sample={"fn": b.id, "site": c.loc()})
+
+    # ---- clause 4 ---------------------------------------------------------
+    ops = mustguard.operators(F)
+    ctx.floor("C22.4", "expression-carrying operators with a pre-pass", len(ops), 10)
+    for b in ops:
+        rets = mustguard.unguarded_returns(F, b)
+        ctx.analysed_fns.add(b.id)
+        ctx.instance("C22.4", "%s: returns that bypass the pre-pass: %s" % (b.id, rets or "none"))
+        ctx.oblige(not rets, "C22.4", "%s:return-bypasses-prepass" % b.id,
+                   "this operator can hand rows on without running ensure_runtime_expression_compatible on its expressions (a fast path / early "
+                   "return around the pre-pass): a runtime type error in them is not reported for the inputs that take that path", b.file,
+                   sample={"operator": b.id, "bypassing_return_blocks": rets})
